@@ -10,7 +10,7 @@ var (
 	// a commit line as printed by --pretty=format:[%h] %aN %ad %s --date=short; the subject is
 	// free text and may itself contain bracketed hashes, the author's name or dates
 	header            = `^\[([\da-f]{5,40})\]\s(.*?)\s(\d{4}-\d{2}-\d{2})\s?(.*)$`
-	changes           = `([\d-]+)[\t\s]+([\d-]+)[\t\s]+(.*)`
+	changes           = `^([\d-]+)[\t\s]+([\d-]+)[\t\s]+(.*)`
 	complexMoveRegStr = `(.*)\{(.*)\s=>\s(.*)\}(.*)`
 	basicMoveRegStr   = `(.*)\s=>\s(.*)`
 	changeModel       = `\s(\w{1,6})\s(mode 100(\d){3})?\s?(.*)(\s\(\d{2}%\))?`
